@@ -880,9 +880,23 @@ int
 ldb_lock_file(const char *filename, ldb_filelock_t **lock) {
   ldb_fileid_t id;
   struct stat st;
-  int fd, rc;
+  int fd = -1;
+  int rc;
 
   ldb_mutex_lock(&file_mutex);
+
+  /* POSIX record locks are dropped as soon as the process closes any
+     descriptor of the file: a lock file this process already holds
+     must not be opened (and closed) again. */
+  if (stat(filename, &st) == 0) {
+    id.dev = st.st_dev;
+    id.ino = st.st_ino;
+
+    if (rb_set_has(&file_set, &id)) {
+      errno = ENOLCK;
+      goto fail;
+    }
+  }
 
   fd = ldb_open(filename, O_RDWR | O_CREAT, 0644);
 
